@@ -51,6 +51,13 @@ def make_env(desc):
             return nasim.load(path, name=desc.get("as_name", "y"), flat_actions=fa)
         finally:
             os.unlink(path)
+    if kind == "dict" and desc.get("share_scenario"):
+        # ONE Scenario object used for several environments (a scenario is configuration)
+        from nasim.envs import NASimEnv
+        sc = _SHARED_SCENARIOS.get(desc["share_scenario"])
+        if sc is None:
+            sc = _SHARED_SCENARIOS[desc["share_scenario"]] = to_scenario(spec_from_json(desc["spec"]))
+        return NASimEnv(sc, flat_actions=fa)
     if kind == "dict":
         from nasim.envs import NASimEnv
         sp = spec_from_json(desc["spec"])
@@ -73,6 +80,7 @@ def make_env(desc):
 
 
 _SHARED_HOSTS = {}
+_SHARED_SCENARIOS = {}
 
 
 def layout_tuple(env):
@@ -154,6 +162,7 @@ class Slot:
 
 def run_schedule(descA, descB, actsA, actsB, sides, schedule):
     sm = seam()
+    _SHARED_SCENARIOS.clear()          # a shared Scenario object is shared by the two environments of THIS run only
     A, B = Slot(descA, actsA, sides), Slot(descB, actsB, sides)
     A.other, B.other = B, A
     for who in schedule:
@@ -163,6 +172,7 @@ def run_schedule(descA, descB, actsA, actsB, sides, schedule):
 
 def solo_trace(desc, acts, sides):
     sm = seam()
+    _SHARED_SCENARIOS.clear()
     S = Slot(desc, acts, sides)
     for _ in PROGRAM:
         S.do(sm)
@@ -238,6 +248,10 @@ def pairs(tier):
         ("different_layout_tiny_vs_small", {"kind": "shipped", "name": "tiny"}, {"kind": "shipped", "name": "small"}),
         ("different_layout_reversed_services", _yaml_desc(s1), _yaml_desc(rev)),
     ]
+    from .family import api_specs
+    two_pub = [x for x in api_specs() if x["name"] == "api-2pub"][0]
+    out.append(("one_scenario_object_two_environments", {"kind": "dict", "spec": spec_to_json(two_pub), "share_scenario": "sc1"},
+                {"kind": "dict", "spec": spec_to_json(two_pub), "share_scenario": "sc1"}))
     # large pair: 31 one-host subnets in a chain (topology matrix and state tensor above 1000 cells, where NumPy
     # abbreviates str(array)); the two differ ONLY in which inner subnet is public as well
     big = dict(base); big.update(shape="-".join(["1"] * 31), topo="chain", hostfw="none", sensitive="last", sw="1os1s1p",
